@@ -738,6 +738,13 @@ func (f *fnCtx) call(c *ast.CallExpr, stmt bool) string {
 			v := f.partial(f.atom(f.expr(sel.X))) // a nil pointer dereference panics
 			return f.sdkCall(v, m, c)
 		case kSdk:
+			if m == "IsNil" && len(c.Args) == 0 {
+				// an sdkmath.Int read from an object may be the zero value without a number inside: an accessor of that object
+				if ap, aargs, isPath := f.pathOf(sel.X); isPath && aargs == nil && len(ap.segs) > 0 {
+					ap.segs = append(ap.segs, "IsNil")
+					return f.pathValue(ap, nil, lty{k: kBool, lean: "Bool"}, c)
+				}
+			}
 			return f.sdkCall(f.atom(f.expr(sel.X)), m, c)
 		case kDec:
 			return f.decCall(f.atom(f.expr(sel.X)), m, c)
